@@ -328,19 +328,26 @@ var c10CaseNameSets = []struct {
 		"main": "{% extends 'mid' %}{% block Side %}c({{ parent() }}){% endblock %}"}, "<c(S1)|m(s2)>"},
 	{map[string]string{"base": "<{% block NAV %}N{% endblock %}{% block nav %}n{% endblock %}{% block Nav %}M{% endblock %}>", "main": "{% extends 'base' %}{% block Nav %}{% endblock %}"}, "<Nn>"},
 	{map[string]string{"base": "<{% block a_b %}1{% endblock %}{% block a_B %}2{% endblock %}>", "main": "{% extends 'base' %}{% block a_B %}x{{ parent() }}{% endblock %}"}, "<1x2>"},
+	// blocks that stand inside spaceless / apply sections of the layout, or use them in an override
+	{map[string]string{"base": "<{% spaceless %}[{% block a %}A{% endblock %}]{% endspaceless %}>", "main": "{% extends 'base' %}{% block a %}x{{ parent() }}{% endblock %}"}, "<[xA]>"},
+	{map[string]string{"base": "<{% spaceless %}<i>{% block a %}A{% endblock %}</i> <b>{% block b %}B{% endblock %}</b>{% endspaceless %}>", "main": "{% extends 'base' %}{% block b %}y{% endblock %}"}, "<<i>A</i><b>y</b>>"},
+	{map[string]string{"base": "<{% apply upper %}[{% block a %}a{% endblock %}]{% endapply %}>", "main": "{% extends 'base' %}{% block a %}x{{ parent() }}{% endblock %}"}, "<[XA]>"},
+	{map[string]string{"base": "<{% block a %}A{% endblock %}>", "main": "{% extends 'base' %}{% block a %}{% spaceless %}<i>x</i> <b>{{ parent() }}</b>{% endspaceless %}{% endblock %}"}, "<<i>x</i><b>A</b>>"},
+	{map[string]string{"base": "<{% block a %}a{% endblock %}>", "mid": "{% extends 'base' %}{% block a %}m{{ parent() }}{% endblock %}", "main": "{% extends 'mid' %}{% block a %}{% apply upper %}c{{ parent() }}{% endapply %}{% endblock %}"}, "<CMA>"},
+	{map[string]string{"base": "<{% block o %}{% spaceless %}<p>{% block a %}A{% endblock %}</p> {% endspaceless %}{% endblock %}>", "main": "{% extends 'base' %}{% block a %}x{% endblock %}"}, "<<p>x</p> >"},
 }
 
 func checkC10CaseNames(c C10CaseNames) error {
 	s := c10CaseNameSets[c.Which%len(c10CaseNameSets)]
 	r := render(newEngine(s.tm), "main", nil)
 	if r.Failed() || r.Out != s.want {
-		return fmt.Errorf("blocks whose names differ only in letter case are different blocks: got %v, want %s; templates:%s", r, q(s.want), showSources(s.tm))
+		return fmt.Errorf("every block is replaced by its most-derived definition where it stands (names that differ in case are different blocks; blocks inside spaceless / apply sections are blocks): got %v, want %s; templates:%s", r, q(s.want), showSources(s.tm))
 	}
 	return nil
 }
 
 func TestC10Scale(t *testing.T) {
-	r := NewRec(t, "C10", "exhaustive: extends chains of 2..20, 33, 64, 100 templates (every level overrides one block, odd levels a second, a third stays default) with and without parent(), with absolute and relative parent names; six template sets whose block names differ only in letter case; expected text computed directly; non-trivial = more than 3 templates or case-variant names")
+	r := NewRec(t, "C10", "exhaustive: extends chains of 2..20, 33, 64, 100 templates (every level overrides one block, odd levels a second, a third stays default) with and without parent(), with absolute and relative parent names; six template sets whose block names differ only in letter case, six with blocks inside spaceless / apply sections; expected text computed directly; non-trivial = more than 3 templates or case-variant names")
 	defer r.Flush()
 	r.SetExhaustive()
 	levels := []int{33, 64, 100}
